@@ -29,3 +29,6 @@ def check(ctx: Ctx) -> None:
     S.r_spawner_registry_who(ctx, "R10.8")
     # what get_group_ids reports is what the register's set interface shows
     N.r_register_faithful(ctx, "R10.9")
+    # ... and only if the group helper reaches the spawners at all: an empty register (nothing started yet) is no reason to skip them
+    from . import cancel as K
+    K.r_group_helper(ctx, "R10.10")
